@@ -94,8 +94,9 @@ type c15Case struct {
 	PHdrs   [][2]string `json:"p_headers"` // AddHeaderForUpstream calls of the pipeline, in order
 	PCooks  [][2]string `json:"p_cookies"` // AddCookieForUpstream calls (distinct names)
 	ReadBdy bool        `json:"read_body"` // the pipeline reads the body through the request view
-	// oracle: what url.Parse makes of the first X-Forwarded-Uri value the view sees
-	// (nil: header absent/empty/stripped, or it does not parse): EscapedPath(), Query().Encode()
+	// oracle: what extractURL reads from the first X-Forwarded-Uri value the view sees (nil: header
+	// absent/empty/stripped): EscapedPath() and RawQuery as sent; for a value url.Parse rejects the
+	// text before / after the first '?'
 	Xfu *[2]string `json:"xfu,omitempty"`
 }
 
